@@ -96,11 +96,21 @@ def mutable_values_through_a_run(ctx, rep):
     n = 0
     variants = [{"search_method": [("ES-ell", 1), ("ES-wcm", 1)]}, {"search_method": [("ES-ell", 1), ("ES-wcm", 1), ("ES-ell", 0)]},
                 {"noise_nudge": np.array([1.0, 0.0])}, {"search_method": [("ES-wcm", 1), ("ES-ell", 1)], "fun_values": {}}]
+    # ... and falsy scalar values that are legitimate settings (0 samples, noise size 0, switches off), in the noise mode that reads them
+    variants += [{"noise_size": 0, "specify_target_noise": True, "uncertainty_handling": True}, {"noise_final_samples": 0, "uncertainty_handling": True},
+                 {"accelerate_mesh": False, "nonlinear_scaling": False, "complete_poll": False}]
     for v in variants:
         D = rng.choice([1, 2])
-        user = dict(copy.deepcopy(v), display="off", max_fun_evals=D + 22, n_search=32, random_seed=rng.randint(0, 99))
+        noisy = bool(v.get("uncertainty_handling"))
+        user = dict(copy.deepcopy(v), display="off", max_fun_evals=(D + 22) if not noisy else 48, n_search=32, random_seed=rng.randint(1, 99))
         keep = copy.deepcopy(user)
-        mk = lambda: BADS(lambda x: float(np.sum(np.asarray(x) ** 2)), np.full(D, 0.3), np.full(D, -4.0), np.full(D, 6.0), np.full(D, -2.0), np.full(D, 3.0), options=user)
+        if v.get("specify_target_noise"):
+            tf = lambda x: (float(np.sum(np.asarray(x) ** 2)) + 0.1 * np.random.randn(), 0.1)
+        elif noisy:
+            tf = lambda x: float(np.sum(np.asarray(x) ** 2)) + 0.1 * np.random.randn()
+        else:
+            tf = lambda x: float(np.sum(np.asarray(x) ** 2))
+        mk = lambda: BADS(tf, np.full(D, 0.3), np.full(D, -4.0), np.full(D, 6.0), np.full(D, -2.0), np.full(D, 3.0), options=user)
         a, b = mk(), mk()
         try:
             a.optimize()
